@@ -21,7 +21,7 @@
      correspondence harness instead). *)
 From Coq Require Import List ZArith QArith Bool Arith Lia.
 From LMBase Require Import Res ListX IEEE.
-From LMDisc Require Import DiscModel DiscProofs DiscIEEE.
+From LMDisc Require Import DiscModel DiscProofs DiscKernels DiscIEEE.
 Import ListNotations.
 
 (* (1) exact arithmetic: byte score of a window >= byte image of its real score *)
@@ -66,6 +66,82 @@ Theorem C08_check_sound :
     check_C08 N factor offset obs = true <->
     Forall (fun p => (scale_with N factor offset (snd p) <= fst p)%Z) obs.
 Proof. intros T N factor offset obs. split; [apply check_C08_sound|apply check_C08_complete]. Qed.
+
+(* (2) the u8 kernels.  AVX2 (lane-wise PSHUFB + saturating PADDUSB) = generic kernel
+   (saturating Accumulate), for any discrete matrix with K <= 16 columns, any padding
+   bytes behind its rows, any striped matrix of symbols below K, any row range: *)
+Theorem C08_avx2_eq_generic :
+  forall (K : nat) (dm : list (list Z)) (pads : nat -> list Z) (s : sseq) (lo hi : nat) (sc : sscores Z),
+    (K <= 16)%nat -> Forall (fun row => length row = K) dm -> (forall i, 16 <= K + length (pads i))%nat ->
+    sseq_ok K s ->
+    score_rows_avx2 dm pads s lo hi = Ok sc ->
+    score_rows_generic sat_add 0%Z 32 dm s lo hi = Ok sc.
+Proof. exact avx2_eq_generic. Qed.
+
+(* conversely (the AVX2 wrapper only adds the checks "motif not empty" and "enough wrap rows") *)
+Theorem C08_generic_eq_avx2 :
+  forall (K : nat) (dm : list (list Z)) (pads : nat -> list Z) (s : sseq) (lo hi : nat) (sc : sscores Z),
+    (K <= 16)%nat -> Forall (fun row => length row = K) dm -> (forall i, 16 <= K + length (pads i))%nat ->
+    sseq_ok K s ->
+    (1 <= length dm)%nat -> (length dm - 1 <= ss_wrap s)%nat ->
+    score_rows_generic sat_add 0%Z 32 dm s lo hi = Ok sc ->
+    score_rows_avx2 dm pads s lo hi = Ok sc.
+Proof. exact generic_eq_avx2. Qed.
+
+(* every arm of the dispatcher returns what the generic kernel returns *)
+Theorem C08_dispatch_arms_agree :
+  forall (K : nat) (dm : list (list Z)) (pads : nat -> list Z) (s : sseq) (lo hi : nat) (a : arm) (sc : sscores Z),
+    (K <= 16)%nat -> Forall (fun row => length row = K) dm -> (forall i, 16 <= K + length (pads i))%nat ->
+    sseq_ok K s ->
+    score_rows_dispatch a dm pads s lo hi = Ok sc ->
+    score_rows_generic sat_add 0%Z 32 dm s lo hi = Ok sc.
+Proof. exact dispatch_arms_agree. Qed.
+
+(* adds_epu8 is the saturating sum: on a sequence striped and configured for the motif
+   every arm returns the same matrix, and its entry for position i is
+   satsum = fold (fun a b => min 255 (a+b)) of the discrete cells of the window at i *)
+Theorem C08_adds_epu8_is_satsum :
+  forall (K : nat) (dm : list (list Z)) (pads : nat -> list Z) (s : list nat) (wrapn : nat),
+    (0 < K)%nat -> (K <= 16)%nat -> Forall (fun row => length row = K) dm ->
+    (forall i, 16 <= K + length (pads i))%nat -> Forall (fun v => (v < K)%nat) s ->
+    (1 <= length dm)%nat -> (length dm <= length s)%nat -> (length dm - 1 <= wrapn)%nat ->
+    exists sc,
+      (forall a, score_u8 a dm pads (striped K 32 wrapn s) = Ok sc) /\
+      length (sc_rows sc) = ((length s + 31) / 32)%nat /\
+      sc_max sc = (length s + 1 - length dm)%nat /\
+      (forall i, (i < (length s + 31) / 32 * 32)%nat ->
+         exists cells, pick dm (window K s i (length dm)) = Some cells /\
+                       sc_index sc i = Ok (satsum cells)).
+Proof.
+  intros K dm pads s wrapn HK HK16 Hdm Hp Hs HM HL Hw.
+  destruct (score_u8_windows K dm pads s wrapn HK HK16 Hdm Hp Hs HM HL Hw) as [sc [H1 [H2 [H3 H4]]]].
+  exists sc. repeat split; auto. intros i Hi. specialize (H4 i Hi).
+  rewrite window_win in *.
+  pose proof (wval_ok K dm s i HK Hdm Hs) as Hb. unfold disc_wscore, wscore in Hb.
+  destruct (wscore_from_pick _ _ _ _ _ Hb) as [cells [Hp1 Hp2]].
+  exists cells. split; [exact Hp1|]. rewrite H4. unfold disc_wscore, wscore. rewrite Hb, Hp2. reflexivity.
+Qed.
+
+(* end to end: for every arm and every position i <= L - M the byte found at index i of the
+   arm's score matrix (= DiscreteMatrix::score_position) is >= the byte image of the real
+   score of that position (ScoringMatrix::score_position), the real score being computed
+   in exact arithmetic *)
+Theorem C08_backends_overestimate :
+  forall (K : nat) (m : list (list xq)) (d : @dmat xq) (pads : nat -> list Z) (s : list nat) (a : arm) (i : nat),
+    (0 < K)%nat -> (K <= 16)%nat ->
+    Forall (fun row => length row = K) m ->
+    Forall (fun row => Forall xq_finite (nonwild K row)) m ->
+    to_discrete xq_ops K m = Ok d ->
+    (forall i, 16 <= K + length (pads i))%nat ->
+    Forall (fun v => (v < K)%nat) s ->
+    (1 <= length m)%nat -> (i + length m <= length s)%nat ->
+    exists sc b real,
+      score_u8 a (d_data d) pads (striped K 32 (configure_wrap_of (length m)) s) = Ok sc /\
+      sc_index sc i = Ok b /\
+      disc_score (d_data d) (striped K 32 (configure_wrap_of (length m)) s) i = Ok b /\
+      real_score xq_ops m (striped K 32 (configure_wrap_of (length m)) s) i = Ok real /\
+      (scale xq_ops d real <= b)%Z.
+Proof. exact backends_overestimate. Qed.
 
 (* (3) binary32: the statement is false for ill-conditioned matrices *)
 Theorem C08_ieee_refuted :
